@@ -221,6 +221,7 @@ def check_m2(ctx) -> None:
 
 
 def run(ctx) -> None:
+    ctx.rule('M4', '"exactly one row per successfully simulated iteration": the default result file is unique to the request, so rows of other runs never land in it (C14 Q7)')
     ctx.rule('M1', 'every draw from numpy\'s global generator inside a callable handed to ProcessPoolExecutor is dominated by a '
                    'reseed from fresh entropy (or uses a per-task generator, or the pool has a reseeding initializer)')
     ctx.rule('M2', 'exactly one newline-terminated row is appended per successful iteration, unconditionally, inside the lock')
@@ -234,6 +235,9 @@ def run(ctx) -> None:
     check_q6(ctx)
     for o in ctx.obligations[before:]:
         o['rule'] = 'M2'
+    from gxstat.runner import Renamed
+    from rules.c14 import check_q7
+    check_q7(Renamed(ctx, {'Q7': 'M4'}))
     ctx.undecided('statistical quality of numpy generators', 'OS process scheduling',
                   'samples lie in the support (property of numpy.random)')
     ctx.assume('np.random.seed() without argument reseeds from OS entropy (numpy documentation)',
